@@ -148,6 +148,10 @@ class Counters:
                     return None  # sole-owner extraction: KILL-1 / API-1
                 eng.violate("EFF-2", "stray-decrement", "the strong count of %s is lowered outside a handle drop, a group teardown or a sole-owner extraction (strong-state %s)" % (show(b), "".join(sorted(st.strong(b)))), ev.b, st)
                 return None
+            if cls == "sub":
+                if not is_elem_box(b):
+                    eng.violate("EFF-2", "stray-subtraction", "the strong count of %s is lowered by a computed amount outside a group teardown" % show(b), ev.b, st)
+                return None
             if cls == "zero":
                 if not is_elem_box(b):
                     eng.violate("EFF-2", "stray-zeroing", "the strong count of %s is set to zero outside a group teardown" % show(b), ev.b, st)
@@ -165,7 +169,7 @@ class Counters:
             if not (dead or own or killed):
                 eng.violate("EFF-2", "stray-weak-decrement", "the weak count of %s is lowered outside a death path, Weak::drop or a sole-owner extraction" % show(b), ev.b, st)
             return None
-        if cls in ("zero", "max"):
+        if cls in ("zero", "max", "sub"):
             eng.violate("EFF-2", "unaccounted-write:weak", "the weak count of %s is overwritten with a constant" % show(b), ev.b, st)
         return None
 
